@@ -145,7 +145,20 @@ func runC12(c *core.Ctx) {
 				return 0
 			}
 			// count along one iteration: from the body block until the loop header is re-entered
-			min, max := core.PathCountIter(body, item.(ssa.Instruction), weight, nil)
+			// the edge taken when the channel was found closed (`v, ok := <-ch; if !ok { break }`) carries no item
+			closedCh := func(b, s2 *ssa.BasicBlock) bool {
+				if len(b.Succs) != 2 {
+					return false
+				}
+				iff, isIf := b.Instrs[len(b.Instrs)-1].(*ssa.If)
+				if !isIf {
+					return false
+				}
+				n := core.Normalize(core.Cond{V: iff.Cond, True: b.Succs[0] == s2})
+				ex, isE := n.V.(*ssa.Extract)
+				return isE && ex.Tuple == ssa.Value(recv) && ex.Index == 1 && !n.True
+			}
+			min, max := core.PathCountIterEdges(body, item.(ssa.Instruction), weight, closedCh)
 			c.Check(min == 1 && max == 1, "R2", box.typ+"/loop-body", p.InstrPos(item.(ssa.Instruction)), "received item processed exactly once per iteration by a direct call",
 				fmt.Sprintf("a received item is processed %d..%d times per iteration (0 = dropped on some path; >1 or 100 = duplicated or handed to a goroutine: not serial)", min, max))
 		}
